@@ -588,7 +588,7 @@ func runC12Round4(c *Ctx) {
 			return false, false
 		}
 		n := 0
-		direct := false
+		direct, directExpanded := false, false
 		for _, fn := range p.AllSrcFuncs(pk) {
 			if fn.Parent() == nil {
 				continue
@@ -639,6 +639,14 @@ func runC12Round4(c *Ctx) {
 								ok = true
 								if strip(cc.Call.Value) == ssa.Value(to) {
 									direct = true
+									// … on the side where the data itself is an expanded value?
+									for _, g2 := range guardsOf(ci.Block()) {
+										if ex, isEx := g2.Cond.(*ssa.Extract); isEx && g2.Branch {
+											if ta, isTA := ex.Tuple.(*ssa.TypeAssert); isTA && namedOf(ta.AssertedType) == ev {
+												directExpanded = true
+											}
+										}
+									}
 								}
 							}
 						}
@@ -655,6 +663,7 @@ func runC12Round4(c *Ctx) {
 			c.Undecided("flattening calls in the expanded-value hook", "-", "none found")
 		} else {
 			c.Check(direct, "a target of interface type (`any`) receives a flattened value", "-", "flattening under to.Kind() == Interface", "the hook hands a map or list to an `any`-typed field as it is: the decoder stores it without descending, so confmap's internal confmap.expandedValue{Value, Original} pairs end up in the component's configuration instead of the values")
+			c.Check(directExpanded, "a target of interface type (`any`) that receives a whole-value reference gets it flattened", "-", "flattening under to.Kind() == Interface on the expanded-value side", "when the data itself is an expanded value (`extra: ${env:MAP}`) the hook hands its typed value to an `any`-typed field as it is: the pairs nested inside the referenced map or list end up in the component's configuration")
 		}
 	}
 
